@@ -37,15 +37,16 @@ class Ctx:
 
 
 class PackHarness(Harness):
-    def __init__(self, readers=(), writer=False, per_pack=False, compress='NO', cache=False, target=20):
+    def __init__(self, readers=(), writer=False, per_pack=False, compress='NO', cache=False, target=20, do_fsync=True):
         self.readers = list(readers)       # list of (kind, pinned)
         self.writer = writer
         self.per_pack = per_pack
         self.compress = compress
         self.cache = cache
         self.target = target
+        self.do_fsync = do_fsync
         self.name = ('W|' if writer else '') + '|'.join(f'R{k}{"*" if p else ""}' for k, p in readers) + \
-            f'|P(per_pack={int(per_pack)},{compress}{",cache" if cache else ""})'
+            f'|P(per_pack={int(per_pack)},{compress}{",cache" if cache else ""}{"" if do_fsync else ",nofsync"})'
 
     def setup(self):
         ctx = Ctx()
@@ -91,7 +92,7 @@ class PackHarness(Harness):
         h = Container(ctx.root)
         try:
             mode = {'NO': CompressMode.NO, 'YES': CompressMode.YES, 'AUTO': CompressMode.AUTO}[self.compress]
-            h.pack_all_loose(compress=mode, clean_loose_per_pack=self.per_pack)
+            h.pack_all_loose(compress=mode, clean_loose_per_pack=self.per_pack, do_fsync=self.do_fsync)
             h.clean_storage()
         finally:
             h.close()
@@ -220,6 +221,8 @@ def family(tier):
                 fam.append((PackHarness(readers=[(kind, pinned)], per_pack=per_pack,
                                         compress='YES' if (kind == 'seek' or per_pack) else 'NO',
                                         cache=(kind == 'seek' and pinned)), b2 + (1 if q and kind in ('single', 'seek') and not pinned else 0)))
+    fam.append((PackHarness(readers=[('bulk', False)], per_pack=True, compress='NO', do_fsync=False), b2))
+    fam.append((PackHarness(readers=[('single', False)], per_pack=False, compress='YES', do_fsync=False), b2))
     fam.append((PackHarness(writer=True, per_pack=False), b2 + (1 if q else 0)))
     fam.append((PackHarness(writer=True, per_pack=True, compress='YES'), b2))
     fam.append((PackHarness(readers=[('bulk', False)], writer=True, per_pack=True), b3))
@@ -282,7 +285,8 @@ def run(tier, report):
 
 
 def _spec(h):
-    return {'readers': h.readers, 'writer': h.writer, 'per_pack': h.per_pack, 'compress': h.compress, 'cache': h.cache, 'target': h.target}
+    return {'readers': h.readers, 'writer': h.writer, 'per_pack': h.per_pack, 'compress': h.compress, 'cache': h.cache, 'target': h.target,
+            'do_fsync': h.do_fsync}
 
 
 def replay(case):
@@ -290,7 +294,7 @@ def replay(case):
     iolayer.install()
     s = case['harness']
     h = PackHarness(readers=[tuple(r) for r in s['readers']], writer=s['writer'], per_pack=s['per_pack'], compress=s['compress'],
-                    cache=s['cache'], target=s['target'])
+                    cache=s['cache'], target=s['target'], do_fsync=s.get('do_fsync', True))
     r1 = execute(h, case['choices'])
     r2 = execute(h, case['choices'])
     if [v[0] for v in r1['viol']] != [v[0] for v in r2['viol']]:
